@@ -259,6 +259,73 @@ pub fn utf8_seq(full: bool, mut i: u64) -> Vec<u8> {
 
 /// frames that carry `seq` inside text fields: a v3.1.1 CONNECT whose client id is 'a' seq 'b', and a v5 PUBLISH
 /// with a user property whose name is seq and whose value is 'v' seq
+/// building blocks of ill- and well-formed UTF-8: sequences of up to three (thorough: four) of them are tried
+pub const UTF8_ATOMS: [&[u8]; 14] = [
+    b"a",
+    b"\xC3\xA9",         // é
+    b"\xE2\x82\xAC",     // €
+    b"\xF0\x9F\x98\x80", // 😀
+    b"\x80",             // lone continuation byte
+    b"\xC3",             // truncated 2-byte sequence
+    b"\xE2\x82",         // truncated 3-byte sequence
+    b"\xF0\x9F\x98",     // truncated 4-byte sequence
+    b"\xED\xA1\x82",     // high surrogate (CESU-8 first half)
+    b"\xED\xBE\xB7",     // low surrogate (CESU-8 second half)
+    b"\xC0\x80",         // overlong NUL ("modified UTF-8")
+    b"\xF4\x90\x80\x80", // beyond U+10FFFF
+    b"\xFF",
+    b"\x00",
+];
+
+pub fn utf8_atom_seq_count(max_atoms: u32) -> u64 {
+    (1..=max_atoms).map(|k| (UTF8_ATOMS.len() as u64).pow(k)).sum()
+}
+
+pub fn utf8_atom_seq(mut i: u64, max_atoms: u32) -> Vec<u8> {
+    let n = UTF8_ATOMS.len() as u64;
+    let mut k = 1;
+    while k <= max_atoms && i >= n.pow(k) {
+        i -= n.pow(k);
+        k += 1;
+    }
+    let mut out = Vec::new();
+    for _ in 0..k {
+        out.extend_from_slice(UTF8_ATOMS[(i % n) as usize]);
+        i /= n;
+    }
+    out
+}
+
+/// CONNECT frames of the v3 family under both protocol levels (MQIsdp/3 and MQTT/4) that carry `seq` as client id,
+/// as user name and as will topic (one field at a time; the other fields are plain)
+pub fn utf8_connect_frames(seq: &[u8]) -> Vec<(&'static str, Vec<u8>)> {
+    let mut v = Vec::new();
+    for (name, level, lab) in [(&b"MQIsdp"[..], 3u8, ["v3.1 CONNECT client id", "v3.1 CONNECT user name", "v3.1 CONNECT will topic"]), (&b"MQTT"[..], 4u8, ["v3.1.1 CONNECT client id", "v3.1.1 CONNECT user name", "v3.1.1 CONNECT will topic"])] {
+        for field in 0..3 {
+            let f = |k: usize, plain: &[u8]| -> Vec<u8> {
+                let d: &[u8] = if k == field { seq } else { plain };
+                let mut o = vec![(d.len() >> 8) as u8, d.len() as u8];
+                o.extend_from_slice(d);
+                o
+            };
+            let mut body = vec![0, name.len() as u8];
+            body.extend_from_slice(name);
+            body.push(level);
+            body.push(0b1000_0110); // user name, will (QoS 0), clean session
+            body.extend_from_slice(&[0, 30]);
+            body.extend_from_slice(&f(0, b"cid"));
+            body.extend_from_slice(&f(2, b"w/t"));
+            body.extend_from_slice(&[0, 1, b'm']);
+            body.extend_from_slice(&f(1, b"user"));
+            let mut fr = vec![0x10];
+            crate::model::write_varint(&mut fr, body.len() as u32, 0);
+            fr.extend_from_slice(&body);
+            v.push((lab[field], fr));
+        }
+    }
+    v
+}
+
 pub fn utf8_frames(seq: &[u8]) -> (Vec<u8>, Vec<u8>) {
     let mut cid = vec![b'a'];
     cid.extend_from_slice(seq);
@@ -314,6 +381,41 @@ fn case_utf8(input: &Input, ctx: &mut Ctx) -> CaseResult {
     Ok(())
 }
 
+/// nums = [max atoms, start, count]: sequences of UTF-8 atoms in the v3 CONNECT text fields under both protocol levels
+/// and in a v5 user property
+fn case_utf8_atoms(input: &Input, ctx: &mut Ctx) -> CaseResult {
+    let n = input.nums();
+    let (mut good, mut bad) = (0u64, 0u64);
+    for i in n[1]..n[1] + n[2] {
+        let seq = utf8_atom_seq(i, n[0] as u32);
+        let want = std::str::from_utf8(&seq).is_ok();
+        let mut frames = utf8_connect_frames(&seq);
+        frames.push(("v5 PUBLISH user property", utf8_frames(&seq).1));
+        for (lab, fr) in frames {
+            let r = if lab.starts_with("v5") { decide::<V5>(&fr, ctx) } else { decide::<V3>(&fr, ctx) };
+            match r {
+                Ok(Some(_)) => {}
+                Ok(None) => viol!("MQV-INTERNAL: the UTF-8 atom sweep built a frame outside the domain ({} with {})", lab, hex_short(&seq, 16)),
+                Err(v) => {
+                    ctx.refine = Some((if lab.starts_with("v5") { "c04.frame.v5" } else { "c04.frame.v3" }, Input::Bytes(fr.clone())));
+                    return Err(Violation::new(format!("{} containing the bytes {}: {}", lab, hex_short(&seq, 16), v.msg)));
+                }
+            }
+        }
+        if want {
+            good += 1;
+        } else {
+            bad += 1;
+        }
+    }
+    ctx.more_evals((n[2] * 7).saturating_sub(1));
+    ctx.count_distinct(n[2] * 7);
+    ctx.label_n("utf8:well-formed", good);
+    ctx.label_n("utf8:ill-formed", bad);
+    Ok(())
+}
+
+pub const SUB_UTF8_ATOMS: Sub = Sub { name: "c04.utf8-atom-sequences", f: case_utf8_atoms };
 pub const SUB_UTF8: Sub = Sub { name: "c04.utf8-sequences", f: case_utf8 };
 
 pub const SUB_H3: Sub = Sub { name: "c04.history.v3", f: case_history::<V3> };
@@ -342,7 +444,7 @@ pub const SUB_B3: Sub = Sub { name: "c04.frame.v3", f: case_bytes::<V3> };
 pub const SUB_B5: Sub = Sub { name: "c04.frame.v5", f: case_bytes::<V5> };
 
 pub fn subs() -> Vec<Sub> {
-    vec![SUB_V3, SUB_V5, SUB_B3, SUB_B5, SUB_H3, SUB_H5, SUB_X3, SUB_X5, SUB_UTF8]
+    vec![SUB_V3, SUB_V5, SUB_B3, SUB_B5, SUB_H3, SUB_H5, SUB_X3, SUB_X5, SUB_UTF8, SUB_UTF8_ATOMS]
 }
 
 /// hand-assembled frames: the defects repaired by 284f652 / 2d36388 and the pinned leniencies
@@ -377,6 +479,11 @@ pub fn run(env: &mut Env) -> RunResult {
     let full = env.thorough();
     let total = utf8_seq_count(full);
     env.run_enum(SUB_UTF8, total.div_ceil(4_096), true, move |i| Input::Nums(vec![full as u64, i * 4_096, 4_096.min(total - i * 4_096)]))?;
+    let atoms = env.tier.sel(3u64, 4u64);
+    let at = utf8_atom_seq_count(atoms as u32);
+    env.run_enum(SUB_UTF8_ATOMS, at.div_ceil(512), true, move |i| Input::Nums(vec![atoms, i * 512, 512.min(at - i * 512)]))?;
+    env.require("c04.utf8-atom-sequences", "utf8:well-formed");
+    env.require("c04.utf8-atom-sequences", "utf8:ill-formed");
     env.require("c04.utf8-sequences", "utf8:well-formed");
     env.require("c04.utf8-sequences", "utf8:ill-formed");
     let n = env.tier.sel(40_000, 500_000);
